@@ -131,6 +131,37 @@ def obligations(tier, seed):
             obs.append(Ob(f"mod.{kind}.{mt}", build(params, body, setup=SETUP), f"{mt}: mutating A leaves B's observable state and saved bytes unchanged (B = " +
                           {"fresh": "another fresh instance", "clone": "A.clone()", "clone_rev": "the original A was cloned from", "load": "loaded from the same bytes as A"}[kind] + ")",
                           group=kind, shape=f"{mt}; B is {kind}; all attribute groups of A mutated", symbolic=f"{len(params)} symbolic values (range controllers, bindings, common settings, payload elements)", timeout=240))
+    # pairs loaded twice from a SHIPPED fixture (files written by SunVox itself can be shorter than what rv writes: e.g. 64-entry
+    # mapping tables that the loader pads), mutated in place incl. the padded positions
+    import glob
+    import os
+    fx = sorted(f for f in glob.glob("/repo/tests/files/*.sunsynth") if os.path.getsize(f) <= 3000)
+    must = [f for f in fx if os.path.basename(f) in ("metamodule.sunsynth", "sampler.sunsynth", "multictl.sunsynth")]
+    for path in (must + rnd.sample([f for f in fx if f not in must], 5) if tier == "quick" else fx):
+        import rv.api as _api
+        mt = _api.read_sunvox_file(path).module.mtype
+        params, lines = mutate_code(mt, rnd, tier)
+        if mt == "MetaModule":
+            params += [U16("pm")]
+            lines += ["a.mappings.values[70].module = pm", "a.mappings.values[95].controller = pm", "a.mappings.values[10].module = pm"]
+        code = "\n".join("    " + l for l in lines)
+        data = open(path, "rb").read()
+        body = f"""
+    a = load_bytes(DATA).module
+    b = load_bytes(DATA).module
+    s0 = snap_module(b, groups={GROUPS}) + [("all_mappings", [(x.module, x.controller) for x in b.mappings.values] if hasattr(b, "mappings") and type(b).__name__ == "MetaModule" else 0)]
+    y0 = save_bytes(Synth(b))
+{code}
+    c = load_bytes(DATA).module
+    s1 = snap_module(b, groups={GROUPS}) + [("all_mappings", [(x.module, x.controller) for x in b.mappings.values] if hasattr(b, "mappings") and type(b).__name__ == "MetaModule" else 0)]
+    s2 = snap_module(c, groups={GROUPS}) + [("all_mappings", [(x.module, x.controller) for x in c.mappings.values] if hasattr(c, "mappings") and type(c).__name__ == "MetaModule" else 0)]
+    return same(s0, s1) and same(s0, s2) and y0 == save_bytes(Synth(b))
+"""
+        if not params:
+            params = [U8("unused")]
+        obs.append(Ob(f"fixture.{os.path.basename(path).split('.')[0]}", build(params, body, setup=SETUP + f"DATA = {data!r}\n"),
+                      f"{os.path.basename(path)} loaded twice: mutating one copy (every attribute group, in place) changes neither the other copy nor a copy loaded afterwards",
+                      group="fixture", shape=f"fixture {os.path.basename(path)} ({mt}) loaded three times", symbolic=f"{len(params)} symbolic values", timeout=300))
     # cross-type pairs that share a chunk class
     for a_t, b_t, mut in (("Generator", "Analog generator", "a.drawn_waveform.samples[3] = v"), ("Analog generator", "Generator", "a.drawn_waveform.samples[3] = v"),
                           ("MultiCtl", "WaveShaper", "a.curve.values[9] = v"), ("WaveShaper", "MultiCtl", "a.curve.values[9] = v"),
